@@ -82,6 +82,7 @@ def run(tier):
                    cap=40000)
     static_len(res)
     _e2.crosscheck(res)
+    _e2.conformance('C04', res, tier)
     return _e2.finish(res, 2000)
 
 
